@@ -207,9 +207,9 @@ func c11Scenario(s c11Session) explore.Scenario {
 	return func() (func(), func(*vsched.Exec) explore.Verdict) {
 		var h *c11Handler
 		var root string
-		var issued []string        // handle strings in issue order
-		open := map[string]bool{}  // model: handles currently open
-		objOf := map[string]int{}  // rs: handle -> index into h.objs
+		var issued []string       // handle strings in issue order
+		open := map[string]bool{} // model: handles currently open
+		objOf := map[string]int{} // rs: handle -> index into h.objs
 		var bad []string
 		var trace []string
 		fd0 := -1
@@ -699,7 +699,7 @@ func c11HangupScenario(server string, burst []c11Sym) explore.Scenario {
 			exch(mustPkt(&sshFxInitPacket{Version: 3}))
 			exch(mustPkt(&sshFxpOpenPacket{ID: 1, Path: nm("f"), Pflags: sshFxfRead | sshFxfWrite})) // "1"
 			exch(mustPkt(&sshFxpOpenPacket{ID: 2, Path: nm("f"), Pflags: sshFxfRead | sshFxfWrite})) // "2"
-			exch(mustPkt(&sshFxpOpendirPacket{ID: 3, Path: dir}))                                     // "3"
+			exch(mustPkt(&sshFxpOpendirPacket{ID: 3, Path: dir}))                                    // "3"
 			var all []byte
 			for i, sym := range burst {
 				id := uint32(10 + i)
